@@ -756,6 +756,9 @@ class NumericWaveform(ABC, Generic[_TRaw, _TScaled]):
 
         if copy:
             if sample_count > len(self._data):
+                if np.may_share_memory(array, self._data):
+                    # The array views this object's own buffer, which is reallocated below.
+                    array = array.copy()
                 self.capacity = sample_count
             self._data[0:sample_count] = array[start_index : start_index + sample_count]
             self._start_index = 0
